@@ -8,9 +8,9 @@ git -C /repo worktree add -q "$WT" HEAD || exit 3
 cd "$WT"
 git apply "$SRC/patch.diff" || { echo "patch does not apply"; git -C /repo worktree remove --force "$WT"; exit 3; }
 TESTS=$(/venv/bin/python -m pytest -q -p no:cacheprovider --timeout=900 2>&1 | tail -1)
-/venv/bin/python "$SRC/demo.py" > /tmp/confirm_$ID.with 2>&1; WITH=$?
+PYTHONPATH="$WT" /venv/bin/python "$SRC/demo.py" > /tmp/confirm_$ID.with 2>&1; WITH=$?
 git checkout -q -- .
-/venv/bin/python "$SRC/demo.py" > /tmp/confirm_$ID.without 2>&1; WITHOUT=$?
+PYTHONPATH="$WT" PYTHONPATH="$WT" /venv/bin/python "$SRC/demo.py" > /tmp/confirm_$ID.without 2>&1; WITHOUT=$?
 cd /; git -C /repo worktree remove --force "$WT"
 echo "$ID: tests='$TESTS' demo_with=$WITH demo_without=$WITHOUT"
 case "$TESTS" in *"92 passed"*) ;; *) echo "REJECT: tests changed"; exit 1;; esac
